@@ -262,6 +262,13 @@ def run(ctx) -> None:
         run_repo_tests(ctx, ['incomplete_cooperative/tests/test_solvers.py'], 'solvers,env')
     rng = ctx.rng
     quick = ctx.tier == "quick"
+    # guaranteed minimum, independent of the time budget: a symmetric game (ties) under a step budget, one expected-greedy run
+    trajectory(ctx, {"n": 3, "generator": "factory", "computer": "superadditive", "gap": "l1_norm", "seed": rng.randint(0, 10**6),
+                     "actions": [0, 1, ["u", 0], 2, 0], "budget": 2, "scale": 1.0})
+    trajectory(ctx, {"n": 4, "generator": "factory", "computer": "superadditive_cached", "gap": "linf_norm", "seed": rng.randint(0, 10**6),
+                     "actions": [0, 3, 5], "budget": 1, "scale": 1.0})
+    greedy_search(ctx, {"n": 3, "generator": "noisy_factory", "computer": "superadditive", "gap": "exploitability", "seed": rng.randint(0, 10**6),
+                        "samples": 2, "steps": 2, "processes": 1, "randomize": False, "brute_k": 2, "scale": 1.0})
     # n = 3: every reachable state through every order
     gens3 = ASYM + SYM
     rng.shuffle(gens3)
